@@ -30,6 +30,10 @@ def gen_body(rng, tier, scale):
         r = s * rng.choice([0.3, 1.0])
         ln = s * rng.choice([0.5, 2.0, 6.0])
         n = rng.choice([6, 8, 10] if not fine else [16])
+        if rng.chance(0.15):
+            # a finely tessellated rim: the AABB tree is built by x-sorted insertion without rebalancing, so it gets
+            # deep (depth ~ n / 2), which is what the tree-based broad phase has to cope with
+            n = rng.choice([130, 170, 210, 300])
         p = {"radius": r, "length": ln, "hint": 2 * math.pi * r / n}
         ext = math.hypot(r, ln / 2)
     else:
